@@ -987,6 +987,13 @@ func (a *Analyzer) onTrunc(n *nodeState, r *ev.Rec) {
 			continue
 		}
 		if ci := cm[idx]; ci != nil && ci.term == e.term && ci.hash == e.hash {
+			if r.St != nil && r.St.Term < ci.obsTerm {
+				// the node follows a leader of a term older than the one in
+				// which the entry became committed: that leader need not hold
+				// the entry, and a majority without this node does
+				a.stat("truncations-of-entries-committed-in-a-later-term")
+				continue
+			}
 			a.find("C02", "committed-entry-truncated", "", r.Q, "%s truncates from %d and thereby removes committed entry (%d,t%d)", n.key, r.Idx, idx, e.term)
 			break
 		}
